@@ -17,13 +17,6 @@
    ancestor) was redefined, accessors no class of the list declares. *)
 From C12 Require Import Model.
 
-(* keep the first occurrence *)
-Fixpoint kf (seen l : list nat) : list nat :=
-  match l with
-  | [] => []
-  | x :: r => if memb x seen then kf seen r else x :: kf (x :: seen) r
-  end.
-Definition dedup (l : list nat) : list nat := kf [] l.
 Fixpoint all_some {A} (l : list (option A)) : option (list A) :=
   match l with
   | [] => Some []
@@ -225,9 +218,8 @@ Fixpoint nodupb (l : list nat) : bool :=
 Definition g_defclass (w : world) (n : nat) (supers : list nat) (slots : list slotdef) (rorder corder : list nat) : bool :=
   let wr := defclass_reg w n supers slots in
   let pre := defclass_pre w n supers slots rorder in
-  (* the shape of the form: user class names, direct superclasses distinct, slot names distinct, no initarg on
-     two slots of the form *)
-  forallb (fun c => Nat.ltb c SO) (n :: supers) && nodupb supers && nodupb (map sd_name slots) && nodupb (map fst (slot_initargs slots))
+  (* the shape of the form: user class names, direct superclasses distinct, slot names distinct *)
+  forallb (fun c => Nat.ltb c SO) (n :: supers) && nodupb supers && nodupb (map sd_name slots)
   (* the iteration orders are orders of the registered classes *)
   && forallb (fun id => memb id rorder) (reg_ids wr) && forallb (fun id => memb id (reg_ids wr)) rorder
   && forallb (fun id => memb id corder) (sub_ids pre n) && forallb (fun id => memb id (reg_ids pre)) corder
@@ -242,8 +234,6 @@ Definition g_defclass (w : world) (n : nat) (supers : list nat) (slots : list sl
          else true
      end.
 
-Definition initarg_slots (ia : list (nat * nat)) (k : nat) : list nat :=
-  dedup (map snd (filter (fun p => Nat.eqb (fst p) k) ia)).
 Definition g_make (w : world) (n : nat) (args : list (nat * Z)) : bool :=
   nodupb (map fst args) &&
   match lookup (reg w) n with
@@ -253,9 +243,8 @@ Definition g_make (w : world) (n : nat) (args : list (nat * Z)) : bool :=
       | None => true
       | Some c =>
           let ia := mk_initargs (heap w) (co_slots c) (co_inherit c) in
-          (* a supplied initarg names one slot only; two supplied initargs never name the same slot *)
-          forallb (fun kv => Nat.leb (length (initarg_slots ia (fst kv))) 1) args
-          && nodupb (flat_map (fun kv => initarg_slots ia (fst kv)) args)
+          (* two supplied initargs never name the same slot *)
+          nodupb (flat_map (fun kv => initarg_slots ia (fst kv)) args)
       end
   end.
 (* the instance's class object is the one registered under its name *)
